@@ -40,7 +40,7 @@ def describe(tier):
                 "compared exactly); exactly one package level is expanded; any occurrence of a missing package => NotImplementedError. "
                 "Chains with 6 and 7 (thorough: 11) package occurrences (the three rotations of three packages over the positions, and "
                 "each of them with one position replaced by a key / another package / a time condition) as condition expression and split over two modal mark parts. All 1-2 atom expressions x all tables are also resolved with the table delivered by the library's DictBasedPackageResolver "
-                "(evaluator_factory), ContentEvaluationResultBasedPackageResolver (fresh and one shared EvaluatableData object) and JsonFilePackageResolver (dictionary and list-of-mappings files). Also through expand_packages / expand_time_conditions called directly, and (5 expressions with 2-3 package occurrences x 3 "
+                "(evaluator_factory), ContentEvaluationResultBasedPackageResolver (fresh and one shared EvaluatableData object) and JsonFilePackageResolver (dictionary and list-of-mappings files), and with resolvers for a general and a specific EDIFACT format registered in one provider in either order. Also through expand_packages / expand_time_conditions called directly, and (5 expressions with 2-3 package occurrences x 3 "
                 "tables) under ALL completion orders of a package resolver that really suspends (virtual event loop). Non-trivial = >= 2 abbreviations in the string.",
         "bounds": BOUNDS[tier],
         "exhaustive": True,
@@ -80,7 +80,7 @@ def plan(tier, seed):
         for op in ("U", "O", "X"):
             items.append({"fam": "many", "n": n, "op": op})
     # the package tables delivered through the resolvers the library ships
-    for mode in ("hardcoded", "cer", "methods", "cer-shared", "jsonfile"):
+    for mode in ("hardcoded", "cer", "methods", "cer-shared", "jsonfile", "formats-general-first", "formats-specific-first"):
         for table in range(len(TABLES)):
             items.append({"fam": "modes", "mode": mode, "table": table})
     # package resolvers that really suspend: ALL completion orders on the virtual event loop (E3)
